@@ -232,6 +232,42 @@ fn c01_interp_n64_linear_table() {
     kani::cover!(sel & 7 == 3 && l == 1.0 && h == 3.0, "W: fraction one ulp below 1");
 }
 
+/// N64 kernels with CONCRETE (q, N) (the all-q forms above did not finish): Midpoint does not depend
+/// on q at all; Linear's fraction is then a constant, so the crate's product and the oracle's are the
+/// same expression.
+fn interp_n64_concrete(qf: f64, len: usize) {
+    let l: f64 = kani::any();
+    let h: f64 = kani::any();
+    kani::assume(l <= h && l >= -3.2e150 && h <= 3.2e150);
+    let q = n64(qf);
+    let fr = vh::verif_index_fraction(q, len).raw();
+    let m = <Midpoint as Interpolate<N64>>::interpolate(Some(n64(l)), Some(n64(h)), q, len).raw();
+    assert!(m.to_bits() == (l + (h - l) / 2.0).to_bits(), "Midpoint == lower + (higher - lower) / 2");
+    assert!(l <= m && m <= h, "Midpoint inside [lower, higher]");
+    let x = <Linear as Interpolate<N64>>::interpolate(Some(n64(l)), Some(n64(h)), q, len).raw();
+    assert!(x.to_bits() == (l + fr * (h - l)).to_bits(), "Linear == lower + fraction (higher - lower)");
+    assert!(x >= l, "Linear >= lower");
+    let nr = <Nearest as Interpolate<N64>>::interpolate(Some(n64(l)), Some(n64(h)), q, len).raw();
+    assert!(nr.to_bits() == if fr < 0.5 { l.to_bits() } else { h.to_bits() }, "Nearest picks the lower side iff the fraction is < 0.5");
+    kani::cover!(l < -1.0e100 && h > 1.0e100, "W: huge spread");
+}
+
+//@ prop=C01,C19:thorough tier=quick mem=2 timeout=1200 inst="Midpoint / Linear / Nearest ::interpolate at N64, q = 0.3, N = 3 (fraction 0.6)" bounds="all finite lower <= higher with |v| <= 2^500; one concrete (q, N)"
+#[kani::proof]
+fn c01_interp_n64_q03_n3() {
+    interp_n64_concrete(0.3, 3);
+}
+//@ prop=C01,C19 tier=thorough mem=2 timeout=2400 inst="Midpoint / Linear / Nearest ::interpolate at N64, q = 1 - ulp, N = 2 (fraction just below 1)" bounds="all finite lower <= higher with |v| <= 2^500; one concrete (q, N)"
+#[kani::proof]
+fn c01_interp_n64_q1ulp_n2() {
+    interp_n64_concrete(0.9999999999999999, 2);
+}
+//@ prop=C01,C19 tier=thorough mem=2 timeout=2400 inst="Midpoint / Linear / Nearest ::interpolate at N64, q = 0.25, N = 3 (fraction 0.5)" bounds="all finite lower <= higher with |v| <= 2^500; one concrete (q, N)"
+#[kani::proof]
+fn c01_interp_n64_q025_n3() {
+    interp_n64_concrete(0.25, 3);
+}
+
 // ------------------------------------------------------------------ (3) pipeline
 
 pub fn sort_small<T: Copy + PartialOrd, const L: usize>(v: &mut [T; L], n: usize) {
